@@ -160,7 +160,15 @@ def get_model(
     # Get all relationships
     assocs_results = g.run('MATCH (a)-[r1]->(b),(a)<-[r2]-(b) WHERE a.type IS NOT NULL RETURN DISTINCT a, r1, r2, b').data()
 
+    # The query pairs every relationship from a to b with every relationship
+    # from b to a. If two assets are linked by more than one association only
+    # some of these pairs make up an association, the others are skipped. A
+    # relationship that is part of no association at all is an error.
+    matched_rels = set()
+    unmatched_rels = {}
+
     for assoc in assocs_results:
+        rel_pair = (assoc['r1'], assoc['r2'])
         left_field = list(assoc['r1'].types())[0]
         right_field = list(assoc['r2'].types())[0]
         left_asset = dict(assoc['a'])
@@ -217,14 +225,13 @@ def get_model(
             right_asset.type)
 
         if not assoc:
-            logger.error(
-                'Failed to find ("%s", "%s", "%s", "%s")'
-                'association in language specification!',
-                left_asset.type, right_asset.type,
-                left_field, right_field
-            )
-            return None
+            for rel in rel_pair:
+                unmatched_rels.setdefault(rel,
+                    (left_asset.type, right_asset.type,
+                    left_field, right_field))
+            continue
 
+        matched_rels.update(rel_pair)
         logger.debug('Found "%s" association.', assoc.name)
 
         # Use the asset types the association is declared with: the assets
@@ -253,5 +260,14 @@ def get_model(
             left_asset
         )):
             instance_model.add_association(assoc)
+
+    for rel, signature in unmatched_rels.items():
+        if rel not in matched_rels:
+            logger.error(
+                'Failed to find ("%s", "%s", "%s", "%s")'
+                'association in language specification!',
+                *signature
+            )
+            return None
 
     return instance_model
